@@ -96,6 +96,9 @@ type Case struct {
 	Depth  int  // -1: automatic (Mesh.OctTree), else Mesh.OctTreeDepth / OctTreeWithAttributeAndDepth
 	Attr   bool // build from a non-position attribute through OctTreeWithAttributeAndDepth
 	Qs     []Query
+	// Par > 0: after the sequential pass the same queries are issued again from Par goroutines at
+	// the same time on the SAME tree (a tree is built once and queried by many workers)
+	Par int `json:",omitempty"`
 }
 
 const otherAttr = "Custom3"
@@ -546,6 +549,9 @@ func genCase(t *rapid.T) Case {
 		c.Attr = rapid.IntRange(0, 3).Draw(t, "attr") == 0
 	}
 	c.Qs = rapid.SliceOfN(rapid.Custom(func(t *rapid.T) Query { return genQuery(t, c.Kind, c.Pos, c.Idx) }), 1, 6).Draw(t, "queries")
+	if rapid.IntRange(0, 15).Draw(t, "shared") == 0 {
+		c.Par = rapid.IntRange(2, 6).Draw(t, "par")
+	}
 	return c
 }
 
@@ -752,21 +758,62 @@ func runCase(c Case, o *vh.Obs) *vh.Failure {
 	if norm(sub(av(tb.Min()), ulo)) > 1e-9*scale || norm(sub(av(tb.Max()), uhi)) > 1e-9*scale {
 		return vh.Failf("boundingbox/not-the-union", "%s: BoundingBox() = [%v,%v], union of the element boxes [%v,%v]", what, av(tb.Min()), av(tb.Max()), ulo, uhi)
 	}
-	for qi, q := range c.Qs {
-		if !finite(q.P) || maxAbs(q.P) > 900 || math.IsNaN(q.R) || math.IsInf(q.R, 0) || q.R < 0 {
-			o.Count("invalid-query-skipped", 1)
-			continue
+	pass := func(o *vh.Obs, rot int, shared bool) *vh.Failure {
+		for k := range c.Qs {
+			qi := (k + rot) % len(c.Qs)
+			q := c.Qs[qi]
+			if !finite(q.P) || maxAbs(q.P) > 900 || math.IsNaN(q.R) || math.IsInf(q.R, 0) || q.R < 0 {
+				o.Count("invalid-query-skipped", 1)
+				continue
+			}
+			o.Count("queries", 1)
+			w := fmt.Sprintf("%s, query %d", what, qi)
+			if f := pointQueries(tree, els, q, scale, ulo, uhi, c.Pos, w, o); f != nil {
+				return f
+			}
+			if !finite(q.O) || !finite(q.D) || maxAbs(q.O) > 900 || !(norm(q.D) >= 1e-6) || !(q.Max > q.Min) || math.IsInf(q.Max-q.Min, 0) || math.IsNaN(q.Max-q.Min) {
+				o.Count("invalid-ray-skipped", 1)
+				continue
+			}
+			if f := rayQueries(tree, els, q, ulo, uhi, w, o, shared); f != nil {
+				return f
+			}
 		}
-		o.Count("queries", 1)
-		w := fmt.Sprintf("%s, query %d", what, qi)
-		if f := pointQueries(tree, els, q, scale, ulo, uhi, c.Pos, w, o); f != nil {
-			return f
-		}
-		if !finite(q.O) || !finite(q.D) || maxAbs(q.O) > 900 || !(norm(q.D) >= 1e-6) || !(q.Max > q.Min) || math.IsInf(q.Max-q.Min, 0) || math.IsNaN(q.Max-q.Min) {
-			o.Count("invalid-ray-skipped", 1)
-			continue
-		}
-		if f := rayQueries(tree, els, q, ulo, uhi, w, o); f != nil {
+		return nil
+	}
+	if f := pass(o, 0, false); f != nil || c.Par < 2 || c.Par > 16 {
+		return f
+	}
+	// the same queries again, from Par goroutines at once on the shared tree
+	o.Class("shared-tree/concurrent-queries")
+	workers := make([]int, c.Par)
+	for i := range workers {
+		workers[i] = i
+	}
+	fails := make([]*vh.Failure, c.Par)
+	start, done := make(chan struct{}), make(chan struct{}, c.Par)
+	for _, i := range workers {
+		go func(i int) {
+			defer func() {
+				if r := recover(); r != nil {
+					fails[i] = vh.Failf("concurrent/panic", "%s: worker %d of %d querying the shared tree panicked: %v (the same queries pass one after the other)", what, i, c.Par, r)
+				}
+				done <- struct{}{}
+			}()
+			<-start
+			for r := 0; r < 3 && fails[i] == nil; r++ {
+				if f := pass(&vh.Obs{}, i+r, true); f != nil {
+					fails[i] = vh.Failf("concurrent/"+f.Sig, "worker %d of %d querying the shared tree (the same queries pass one after the other): %s", i, c.Par, f.Msg)
+				}
+			}
+		}(i)
+	}
+	close(start)
+	for range workers {
+		<-done
+	}
+	for _, f := range fails {
+		if f != nil {
 			return f
 		}
 	}
@@ -970,7 +1017,7 @@ func keys(s map[int]bool) []int {
 	return out
 }
 
-func rayQueries(tree *trees.OctTree, els []scanned, q Query, ulo, uhi V3, w string, o *vh.Obs) *vh.Failure {
+func rayQueries(tree *trees.OctTree, els []scanned, q Query, ulo, uhi V3, w string, o *vh.Obs, shared bool) *vh.Failure {
 	n := len(els)
 	ray := geometry.NewRay(vv(q.O), vv(q.D))
 	d := av(ray.Direction()) // the unit direction the library works with
@@ -1038,15 +1085,21 @@ func rayQueries(tree *trees.OctTree, els []scanned, q Query, ulo, uhi V3, w stri
 		return nil
 	}
 
-	// ---- ElementsIntersectingRay (the result aliases a buffer of the tree: copy)
-	o.Class("query/ray-set")
-	got, f := idSet("rayset", append([]int{}, tree.ElementsIntersectingRay(ray, q.Min, q.Max)...), n)
-	if f != nil {
-		f.Msg = w + ": " + f.Msg
-		return f
-	}
-	if f := judge("rayset", got); f != nil {
-		return f
+	// ---- ElementsIntersectingRay (the result aliases a buffer of the tree: copy). The method has a
+	// pointer receiver and collects into per-node buffers by design, so it is not issued while other
+	// goroutines query the same tree; all other queries have value receivers and only read.
+	var got map[int]bool
+	var f *vh.Failure
+	if !shared {
+		o.Class("query/ray-set")
+		got, f = idSet("rayset", append([]int{}, tree.ElementsIntersectingRay(ray, q.Min, q.Max)...), n)
+		if f != nil {
+			f.Msg = w + ": " + f.Msg
+			return f
+		}
+		if f := judge("rayset", got); f != nil {
+			return f
+		}
 	}
 
 	// ---- TraverseIntersectingRay, range untouched: visits the same set
